@@ -45,6 +45,11 @@ LCMDen(a, j) == IF j = 0 THEN 1 ELSE LCM(a[j][2], LCMDen(a, j - 1))
 Cells(a) == LET L == LCMDen(a, Len(a)) IN RMul(Lambda(a), I(L))[1]     \* Lambda * L is an integer
 UGrid(a) == {R(2 * i + 1, 2 * Cells(a)) : i \in 0..(Cells(a) - 1)}
 
+\* guard used by the generators before they build a selection grid: small numbers only (TLC's integers
+\* are 32 bit; Cells itself would overflow on wild propensity vectors, so magnitudes are tested first)
+Tame(a) == \A r \in 1..Len(a) : a[r][1] <= 2000 /\ a[r][2] <= 16
+SmallGrid(a, maxCells) == IF Tame(a) THEN Cells(a) <= maxCells ELSE FALSE
+
 \* (P1) the number of grid points selecting r, over the number of grid points, is a_r / Lambda exactly
 CountSel(a, r) == Cardinality({u \in UGrid(a) : Select(a, u) = r})
 ProportionalSelection(a) == Lambda(a) # Zero =>
